@@ -95,8 +95,9 @@ def edge_rules(ctx, rule, pl, prods, only_2d=None):
             if irregular:
                 stores = [n for n in ast.walk(t.node) if isinstance(n, ast.Assign) and
                           isinstance(n.targets[0], ast.Subscript) and U(n.targets[0].value) == bp]
-                guarded = all(any(isinstance(p, ast.If) and isinstance(p.test, ast.Compare) and
-                                  isinstance(p.test.ops[0], ast.In) for p in _ancestors(s, t.node)) for s in stores)
+                from .c08 import _membership
+                _k, guard_if, _v = _membership(t)
+                guarded = guard_if is not None and all(any(p is guard_if for p in _ancestors(s, t.node)) for s in stores)
                 if stores and guarded:
                     ctx.ok(rule, t, 'irregular filler', 'selected on the InferredGeometry3d branch; stores only under the '
                            'membership test (holes stay zero, C08)')
@@ -234,6 +235,50 @@ def fallback(ctx, prods):
                         ctx.ok('C01.4', f, e.call, 'on every path %s is None unless self_test() passed' % name)
     if n < 1:
         raise AnalysisError('the reduced-I/O reader is no longer passed to the plane filler')
+    selftest_oracle(ctx)
+
+
+def selftest_oracle(ctx):
+    """C01.4 (second half): the self-test can only justify using the reduced-I/O reader if its reference is what the
+    fallback would have produced for the same plane - the source's inline accessor (`<file>.iline[<file>.ilines[k]]`,
+    the expression the segyio path of the plane filler uses) - and if it is compared with read_line of the same plane.
+    Comparing with traces in file order cannot detect a file whose trace order is not inline-major."""
+    P = ctx.P
+    st = None
+    for f in P.functions.values():
+        if f.cls is not None and f.name == 'self_test' and any(
+                isinstance(c, ast.Call) and U(c.func).endswith('read_line') for c in ast.walk(f.node)):
+            st = f
+    if st is None:
+        raise AnalysisError('self_test of the reduced-I/O reader not found')
+    from ..footer import _def_chain
+    cmps = [c for c in ast.walk(st.node) if isinstance(c, ast.Call) and U(c.func).split('.')[-1] in ('array_equal', 'allclose', 'array_equiv')
+            and len(c.args) >= 2]
+    if not cmps:
+        raise AnalysisError('%s: the sample comparison of the self-test was not recognised' % st.qualname)
+    c = cmps[0]
+    sides = []
+    for a in c.args[:2]:
+        chain = _def_chain(st, a)
+        via_iline = any(isinstance(x, ast.Subscript) and isinstance(x.value, ast.Attribute) and x.value.attr == 'iline'
+                        for e in chain for x in ast.walk(e))
+        via_readline = any(isinstance(x, ast.Call) and U(x.func).endswith('read_line') for e in chain for x in ast.walk(e))
+        via_trace = any(isinstance(x, ast.Attribute) and x.attr in ('trace', 'raw') for e in chain for x in ast.walk(e))
+        sides.append((via_iline, via_readline, via_trace))
+    has_rl = any(s_[1] for s_ in sides)
+    has_il = any(s_[0] for s_ in sides)
+    if U(c.func).split('.')[-1] != 'array_equal':
+        ctx.fail('C01.4', st, enclosing_stmt(c), 'the self-test compares samples with %s: a tolerance lets a reader through whose '
+                 'samples differ from segyio\'s' % U(c.func), line=c.lineno)
+    elif has_rl and has_il:
+        ctx.ok('C01.4', st, c, 'self-test compares read_line(0) with the inline accessor of the source (the fallback\'s access path)')
+    elif has_rl and any(s_[2] for s_ in sides):
+        ctx.fail('C01.4', st, enclosing_stmt(c), 'the self-test compares read_line(0) with traces taken in file order (`%s`), not with '
+                 'the inline the segyio path would read (<file>.iline[<file>.ilines[0]]): a file whose traces are not stored '
+                 'inline-major passes the test and is converted in the wrong order' % U([a for a, s_ in zip(c.args, sides) if s_[2]][0])[:50],
+                 line=c.lineno)
+    else:
+        raise AnalysisError('%s: the reference of the self-test (`%s`) follows no recognised idiom' % (st.qualname, U(c)[:70]))
 
 
 def axis_agreement(ctx):
